@@ -44,8 +44,8 @@ namespace {
 
 using sysinst::Sys;
 
-enum Kind : int { ProgW, DataW, MmioW, Send, Recv, SemSet, SemClear, SemMask, Poke, RunProg, Ahbm, NKIND };
-const char* kKindName[] = {"progw", "dataw", "mmiow", "send", "recv", "semset", "semclear", "semmask", "poke", "run", "ahbm"};
+enum Kind : int { ProgW, DataW, MmioW, Send, Recv, SemSet, SemClear, SemMask, Poke, RunProg, Ahbm, Audio, TimerProg, NKIND };
+const char* kKindName[] = {"progw", "dataw", "mmiow", "send", "recv", "semset", "semclear", "semmask", "poke", "run", "ahbm", "audio", "timerprog"};
 struct Op {
     int kind = 0;
     uint64_t a = 0, b = 0, c = 0;
@@ -243,6 +243,37 @@ std::string apply(Sys& s, const Op& op) {
         });
         break;
     }
+    case Audio: // an audio port programmed the way a driver does it: short period, some words, enable, then let the idle loop run
+        o = s.guarded([&] {
+            uint16_t port = (uint16_t)(0x80 * (op.a & 1));
+            s.t->MMIOWrite(0x2A2 + port, (uint16_t)(1 + (op.a >> 1) % 40));
+            for (unsigned k = 0; k < op.b % 5; ++k)
+                s.t->MMIOWrite(0x2C6 + port, (uint16_t)(0x4000 + op.b + k));
+            s.t->MMIOWrite(0x2BE + port, (uint16_t)((op.a >> 8) % 4 != 0)); // mostly enabled
+            auto code = program(1, 0);
+            for (size_t i = 0; i < code.size(); ++i)
+                s.t->ProgramWrite((uint32_t)i, code[i]);
+            flat::State f = s.regs();
+            f[flat::F_pc] = 0;
+            f[flat::F_prpage] = 0;
+            s.set_regs(f);
+            // the frame period is 4096 cycles: run a short stretch (leaves the frame clock mid-period) or just about one period
+            // (shows when the next frame arrives); the idle loop makes the long stretch cheap
+            s.t->Run((unsigned)((op.c % 4 == 0) ? 3900 + (op.c / 4) % 400 : 1 + op.c % 200));
+        });
+        break;
+    case TimerProg: // a timer programmed the way a driver does it: start value, configuration with restart, optionally MU off again
+        o = s.guarded([&] {
+            uint16_t t = (uint16_t)(0x10 * (op.a & 1));
+            s.t->MMIOWrite(0x24 + t, (uint16_t)(op.b % 300));
+            s.t->MMIOWrite(0x26 + t, (uint16_t)((op.a >> 1) % 8 == 0));
+            uint16_t cfg = (uint16_t)(0x0400 | (((op.a >> 4) & 3) << 2) | (((op.a >> 6) & 1) << 9));
+            s.t->MMIOWrite(0x20 + t, cfg);
+            if ((op.a >> 7) & 1)
+                s.t->MMIOWrite(0x20 + t, (uint16_t)(cfg & ~0x0600)); // same mode, MU off, no restart
+            s.t->Run((unsigned)(op.c % 64));
+        });
+        break;
     case Ahbm:
         o = s.guarded([&] {
             uint32_t addr = (uint32_t)(op.a & 0xFFFF) * ((op.c & 2) ? 4 : 2);
@@ -391,7 +422,7 @@ vf::Result check(const Case& c) {
 rc::Gen<Op> genOp() {
     using namespace rc;
     return gen::map(gen::tuple(gen::weightedElement<int>({{2, ProgW}, {2, DataW}, {10, MmioW}, {2, Send}, {1, Recv}, {1, SemSet}, {1, SemClear}, {1, SemMask},
-                                                          {2, Poke}, {4, RunProg}, {1, Ahbm}}),
+                                                          {2, Poke}, {4, RunProg}, {1, Ahbm}, {2, Audio}, {2, TimerProg}}),
                                gen::resize(100, gen::arbitrary<uint64_t>()), vf::u16b(), vf::range<unsigned>(0, 4096)),
                     [](std::tuple<int, uint64_t, uint16_t, unsigned> t) {
                         Op op;
